@@ -99,7 +99,9 @@ func (pc *parentController) syncRollingUpdate(parentRevisions []*parentRevision,
 	for _, child := range latest.syncResult.Children {
 		apiGroup, _ := common.ParseAPIVersion(child.GetAPIVersion())
 		kind := child.GetKind()
-		name := child.GetName()
+		// Claims name children relative to the parent (namespace/name for the
+		// namespaced child of a cluster-scoped parent).
+		name := commonv1.RelativeName(latest.parent, child)
 
 		// Skip if rolling update isn't enabled for this child type.
 		if !pc.updateStrategy.isRolling(apiGroup, kind) {
